@@ -5,6 +5,9 @@ b  dense output: continuous order conditions on the weights extracted from the d
 c  the stepping code applies the table (effective tableau == table, row-sum condition, error estimate)
 d  factories map every public order key to a scheme of that declared order
 e  step-control arithmetic: error scale, clamps, endpoint adjustment, reject factor < 1
+
+c-driver  the drivers apply the kernels faithfully on every grid (driver protocol of C10.d, re-filed); tolerances reach _error_scale in their own slots
+e (added)  the accept test's error norm carries the factor h exactly once (kernel estimate is already h*sum e_i k_i)
 """
 from __future__ import annotations
 
